@@ -1,6 +1,6 @@
 (* C02: facts about how the plan is applied: unchanged names are skipped, a free rename is applied   *)
 (* exactly, deferred renames are retried last-deferred-first in their own input directory.          *)
-From Tempren Require Import Base.Str Py.PathLib Py.PathLibProofs FS.Model FS.Lemmas Pipe.Pipeline Pipe.Confine.
+From Tempren Require Import Base.Str Py.PathLib Py.PathLibProofs FS.Model FS.Lemmas Pipe.Pipeline Pipe.Confine Pipe.DestParent.
 Open Scope N_scope.
 
 Theorem skip_unchanged c f r rest w cwd bl cwd1 np :
@@ -19,6 +19,7 @@ Proof.
     destruct (generate (c_mode c) f r) as [np|ex]; [|intros E; inversion E; subst; exists []; reflexivity].
     destruct (ppath_eqb np (pf_rel f)); [apply IH|].
     destruct (contained (c_var c) (w_fs w) f np) as [[|]|]; try (intros E; inversion E; subst; exists []; reflexivity).
+    destruct (dest_parent_test (c_var c) (w_fs w) f np) as [[|]|]; try (intros E; inversion E; subst; exists []; reflexivity).
     destruct (parents_contained (w_fs w) f np) as [[|]|]; try (intros E; inversion E; subst; exists []; reflexivity).
     destruct (source_contained (w_fs w) f) as [[|]|]; try (intros E; inversion E; subst; exists []; reflexivity).
     destruct (renamer c w cw (pf_rel f) np false) as [w1 [e1|]].
@@ -69,7 +70,9 @@ Proof.
   destruct (name_generator_keeps_parent MName f t np ltac:(discriminate) H2) as [Par _].
   assert (PE : ppath_eqb (pp_parent (pf_rel f)) (pp_parent np) = true) by (apply ppath_eqb_spec; congruence).
   unfold run. cbn [first_pass]. cbn [init_world w_fs].
-  rewrite Cm, H1, H2, H3, Cv, H4, H5, H6.
+  assert (H4' : dest_parent_test fixed s f np = Some true).
+  { apply (dest_parent_test_name_mode fixed MName s f (RText t) np); [discriminate | exact H2 | exact H6]. }
+  rewrite Cm, H1, H2, H3, Cv, H4, H4', H5, H6.
   unfold renamer, renamer_core. rewrite Cd, Cm, Cf, Cv.
   unfold file_renamer, guard_exists. cbn [fixed v_lexists_guard negb andb init_world w_fs].
   unfold lexists. rewrite Rd. rewrite PE. cbn [negb].
